@@ -1260,6 +1260,21 @@ func hasRangeValidation(w *World, f *ssa.Function, depth int, seen map[*ssa.Func
 				walk(y.X, d+1)
 				walk(y.Y, d+1)
 			case *ssa.UnOp:
+				// an element of a local array ({lowest, highest} pairs): whatever is stored into
+				// that array, at any position
+				if ia, ok := y.X.(*ssa.IndexAddr); ok && y.Op == token.MUL {
+					if al, ok := ia.X.(*ssa.Alloc); ok && al.Referrers() != nil {
+						for _, ref := range *al.Referrers() {
+							if ia2, ok := ref.(*ssa.IndexAddr); ok && ia2.Referrers() != nil {
+								for _, r2 := range *ia2.Referrers() {
+									if st, ok := r2.(*ssa.Store); ok && st.Addr == ssa.Value(ia2) {
+										walk(st.Val, d+1)
+									}
+								}
+							}
+						}
+					}
+				}
 				walk(y.X, d+1)
 			case *ssa.Extract:
 				walk(y.Tuple, d+1)
